@@ -16,10 +16,12 @@ Inductive case :=
       (re : re_table) (dur : dur_table) (observed : bool)
 | Dur (id : N) (expr : string) (value : Z) (dur : dur_table) (obs_ok obs_res : bool)
 | Lab (id : N) (e : mentry) (obs_labels : ymap) (obs_group_after : option ymap)
-| Anch (id : N) (pattern subject : string) (whole_match : bool) (obs_match_regex : bool).
+| Anch (id : N) (pattern subject : string) (whole_match : bool) (obs_match_regex : bool)
+| PRule (id : N) (cmd : string) (ignore mtch : list mblock)          (* the match/ignore blocks of a rule{} block as decoded *)
+        (obs_ignore obs_match : list mblock).                         (* ... and as stored in a parsedRule built by parseRule/newParsedRule *)
 
 Definition case_id (c : case) : N :=
-  match c with Blk id _ _ _ _ _ _ _ _ => id | Dur id _ _ _ _ _ => id | Lab id _ _ _ => id | Anch id _ _ _ _ => id end.
+  match c with Blk id _ _ _ _ _ _ _ _ => id | Dur id _ _ _ _ _ => id | Lab id _ _ _ => id | Anch id _ _ _ _ => id | PRule id _ _ _ _ _ => id end.
 
 (** table lookups; [dflt] is the answer for a pair the harness forgot — the model is evaluated with both
     defaults and a difference is reported as an incomplete oracle *)
@@ -41,6 +43,23 @@ Fixpoint ymap_eqb (a b : ymap) : bool :=
   | (k, v) :: a', (k', v') :: b' => String.eqb k k' && String.eqb v v' && ymap_eqb a' b'
   | _, _ => false
   end.
+
+Definition opt_str_eqb (a b : option string) : bool :=
+  match a, b with Some x, Some y => String.eqb x y | None, None => true | _, _ => false end.
+Definition opt_kv_eqb (a b : option kv_match) : bool :=
+  match a, b with
+  | Some x, Some y => String.eqb (km_key x) (km_key y) && String.eqb (km_value x) (km_value y)
+  | None, None => true
+  | _, _ => false
+  end.
+Fixpoint strs_eqb (a b : list string) : bool :=
+  match a, b with [], [] => true | x :: a', y :: b' => String.eqb x y && strs_eqb a' b' | _, _ => false end.
+Definition mblock_eqb (a b : mblock) : bool :=
+  opt_kv_eqb (m_label a) (m_label b) && opt_kv_eqb (m_annotation a) (m_annotation b) && opt_str_eqb (m_command a) (m_command b) &&
+  String.eqb (m_path a) (m_path b) && String.eqb (m_name a) (m_name b) && String.eqb (m_kind a) (m_kind b) &&
+  String.eqb (m_for a) (m_for b) && String.eqb (m_keep a) (m_keep b) && strs_eqb (m_state a) (m_state b).
+Fixpoint mblocks_eqb (a b : list mblock) : bool :=
+  match a, b with [] , [] => true | x :: a', y :: b' => mblock_eqb x y && mblocks_eqb a' b' | _, _ => false end.
 
 Definition run_blk (dflt : bool) cmd e ignore mtch (defaulted : bool) re dur : bool :=
   if defaulted then rule_block_applies (re_lookup re dflt) (dur_lookup dur) cmd e ignore mtch
@@ -89,6 +108,10 @@ Definition check (c : case) : list string :=
       | _, _ => ["group-presence"]
       end
   | Anch _ p s whole obs => if Bool.eqb whole obs then [] else ["anchoring"]
+  | PRule _ cmd ignore mtch oi om =>
+      (* newParsedRule: ignore blocks are taken as they are, match blocks go through defaultRuleMatch *)
+      (if mblocks_eqb oi ignore then [] else ["parsed-rule-ignore"]) ++
+      (if mblocks_eqb om (default_rule_match mtch (default_match_states cmd)) then [] else ["parsed-rule-match"])
   end.
 
 Fixpoint mismatches (cs : list case) : list (N * string) :=
